@@ -264,6 +264,11 @@ def whole_runs(chk):
     files = {'Probe.sol': probe, 'sub/Probe.sol': '\n' + probe, 'sub/deep/Other.sol': dl.file_text(['solidity_math', 'sstore', 'divide_before_multiply', 'constructor_order'], 3),
              'Many.sol': 'pragma solidity ^0.8.16;\ncontract M {\n%s}\n' % ''.join(
                  '    function f%d(\n        uint256[] memory a%d,\n        string memory b%d,\n        bytes memory c%d\n    ) external { a%d; }\n' % ((i,) * 5) for i in range(6))}
+    # two contracts of ONE file that declare state variables of the same names on different lines (each contract has its own): whichever
+    # declaration a detector's name table keeps must not depend on the process
+    files['Twins.sol'] = ('pragma solidity 0.8.16;\ncontract Vault {\n    uint256 fee;\n    address owner;\n    uint256 private cap;\n}\n'
+                          'contract Router {\n    address unused;\n    uint256 private cap;\n    uint256 fee;\n\n    address owner;\n}\n'
+                          'contract Third {\n\n\n    address owner;\n    uint256 fee;\n    uint256 private cap;\n}\n')
     # the probe with one token per line: nested constructs begin on lines of their own, so whatever a detector does with the ORDER of its
     # hash containers shows in the reported lines
     spread, in_str = [], False
